@@ -135,6 +135,19 @@ CHECKS = {
         "open/remove, shutil.copyfile) and drops all mutations after the crash; page-cache reordering / fsync is out of scope.",
         "DESIGN.md 3/C13",
     ),
+    "C12": (
+        "fault_enumeration",
+        "model-based history testing of sync_deps with exhaustive crash-point injection inside one generated sync per history (Hypothesis + vk/faultfs.py)",
+        "Generated histories of configurations (and one tree-version change) with a sync after each; a history model (values recorded by the "
+        "last completed sync, files touched since) is compared with the mtimes on disk: touched == changed for completed syncs, nothing for a "
+        "repeated sync. For one sync per history every mutating file-system operation (and every write prefix of auto.conf: line boundaries, "
+        "lines shortened by one character, mid-line) is a crash point; each is followed by a rerun - under the same configuration or under one "
+        "derived from what the damaged auto.conf shows - and no changed option may be left untouched. Crash points are enumerated "
+        "exhaustively per history; histories are sampled.",
+        "Trusted: vk/faultfs.py intercepts every mutating call of esp_kconfiglib.core; a touch is observed as a changed st_mtime_ns of "
+        "<name>.cdep. Bounds: <=9 options, <=5 syncs, one enumerated sync per history.",
+        "DESIGN.md 3/C12",
+    ),
 }
 
 NOT_YET = {}
